@@ -57,7 +57,7 @@ theorem isBetter_hydrated (c : Cl) (ee : Nat) (e : Ev) (s : Snap)
 
 def by0 : Cl := initCl 2 false 5 [0, 1, 2] [0, 1] 1
 def cA : Ev := { n := 1, ts := 20, idnum := 7, cipher := 1, sender := 1, path := [], kind := .commit .selfUpdate [] }
-def cB : Ev := { n := 2, ts := 19, idnum := 9, cipher := 2, sender := 0, path := [], kind := .commit (.setName 4) [] }
+def cB : Ev := { n := 2, ts := 19, idnum := 9, cipher := 2, sender := 0, path := [], kind := .commit (.setData { initData [0, 1] 1 with name := 4 }) [] }
 
 theorem two_orders_converge :
     (deliver (deliver by0 cA 0).1 cB 0).1.g.path = [2] ∧ (deliver (deliver by0 cB 0).1 cA 0).1.g.path = [2] ∧
